@@ -59,7 +59,7 @@ WsBlank == IF Small THEN {"", " "} ELSE {"", " ", "\n"}
 
 \* ---------------------------------------------------------------- grammar
 \* recursive nonterminals consume fuel
-Recursive == {"Prog", "Stmt", "MacroStmt", "MacroDef", "DoBlock", "Call", "Builtin", "Value", "ValueRest",
+Recursive == {"ArgStmt", "Prog", "Stmt", "MacroStmt", "MacroDef", "DoBlock", "Call", "Builtin", "Value", "ValueRest",
               "ArgList", "ArgRest", "Expr", "ExprRest", "Operand", "DQBody", "TextExpr", "TextRest", "Branch",
               "OpenRest", "StrText", "ParamRest", "EvalArgsRest", "ManyRest", "Balanced"}
 
@@ -145,7 +145,13 @@ Prods(sym, rich) ==
          (IF rich THEN {<<X(" "), NT("ValueHead"), NT("ValueRest")>>, <<NT("ValuePiece"), NT("ValueRest")>>} ELSE {})
     [] sym = "ValuePiece" ->
          {<<X("("), NT("Balanced"), X(")")>>, <<NT("SQuoted")>>, <<NT("DQuoted")>>, <<NT("MVarRef")>>,
-          <<NT("StrCall")>>, <<X("-2")>>}
+          <<NT("StrCall")>>, <<X("-2")>>, <<NT("ArgStmt")>>}
+    \* a macro statement inside an argument value (glued to what precedes it)
+    [] sym = "ArgStmt" ->
+         {<<T("%let"), W, NT("NameExpr"), w, DF("=", "ASSIGN", "assign"), w, NT("OptText"), D(";", "SEMI")>>,
+          <<T("%put"), NT("OptSpText"), D(";", "SEMI")>>,
+          <<T("%do"), w, D(";", "SEMI"), X("c"), T("%end"), w, DF(";", "SEMI", "semi")>>,
+          <<T("%if"), W, NT("Expr"), wb, T("%then"), W, X("t")>>}
     [] sym = "Balanced" ->
          {<<>>, <<X("a,b")>>, <<X("x=1;y")>>, <<X(", ")>>} \cup
          (IF rich THEN {<<X("("), NT("Balanced"), X(")"), NT("Balanced")>>, <<X("k="), NT("MVarRef")>>} ELSE {})
